@@ -1,7 +1,7 @@
 (** * Extract.v — the single extraction file.  [ExtrOcamlBasic] only; [Z], [positive],
     [N] and [nat] stay inductive.  No [Extract Constant]. *)
 From Coq Require Import ZArith List Extraction ExtrOcamlBasic.
-From HPBF Require Import Cell IO BF Expr Inplace IR BC Parse Machines Tape SmallVec BCWf Cli Forms.
+From HPBF Require Import Cell IO BF Expr Inplace IR BC Parse Machines Tape SmallVec BCWf BCRaw Cli Forms.
 Extraction Language OCaml.
 Extraction "extract/model.ml"
   Cell.wadd Cell.wmul Cell.wneg Cell.wand Cell.wshr Cell.wshl Cell.tz Cell.is_odd
@@ -21,5 +21,6 @@ Extraction "extract/model.ml"
   Tape.t_run Tape.rust_policy Tape.rtape0 Tape.s_run Tape.spec0 Tape.all_match Tape.ops_small
   SmallVec.sv_run SmallVec.sstate0 SmallVec.sv_final
   BCWf.bc_wf BCWf.bc_wf_why
+  BCRaw.r_run BCRaw.r_spec BCRaw.rops_ok
   Cli.cli_run Cli.decide Cli.spec_table Cli.spec_defaults Cli.spec_widths
   Forms.reorder Forms.jit_covers Forms.int_covers Forms.pre_shape Forms.unzero_instr.
